@@ -270,6 +270,8 @@ def run_scenario(case, *, inspect=None, max_steps=400_000):
                 effective = peer is not None and peer.writer is not None and not peer.writer.transport._lost_called
             elif kind == "data_cut":
                 effective = peer is not None and any(not t._lost_called and not t._closing for t in peer.data_conns)
+            elif kind == "server_close":
+                effective = hasattr(server, "server") and not hasattr(obs, "server_close_task")
             obs.faults_fired.append((f.get("at"), kind, f.get("session"), round(world.loop.time(), 9), world.net.seq, world.loop.steps, effective))
             if kind == "vanish":
                 if peer is not None:
@@ -289,7 +291,12 @@ def run_scenario(case, *, inspect=None, max_steps=400_000):
                     for tr in peer.data_conns:
                         tr.abort() if f.get("how", "rst") == "rst" else tr.close()
             elif kind == "server_close":
-                obs.server_close_task = world.loop.create_task(server.close())
+                if hasattr(server, "server") and not hasattr(obs, "server_close_task"):  # start() has returned
+                    obs.server_close_task = world.loop.create_task(server.close())
+                    if f.get("freeze_peers", True):
+                        # the peers stay connected but do nothing any more: close() must complete anyway
+                        for t in tasks.values():
+                            t.cancel()
             elif kind == "send":
                 if peer is not None and peer.writer is not None and not peer.writer.transport.is_closing():
                     peer.note("C", f["line"])
